@@ -267,6 +267,17 @@ def _pairing(repo, col, R="R-C08-pairing"):
                 not any(x.startswith("not(") and x[4:-1] in u for x in u)
         n_ = 0
         seen = set()
+        # alternatives whose own conditions contradict each other (a condition inside the value that the store's guard already
+        # decides) are not paths
+        for nm in names:
+            per[nm] = [(g_, v_, s_) for g_, v_, s_ in per[nm] if consistent(g_, g_)]
+        # completeness: on every path on which one of the two is stored, the other is stored as well
+        for a_, b_ in ((names[0], names[1]), (names[1], names[0])):
+            for g1, _v1, s1 in per[a_]:
+                if not any(consistent(g1, g2) for g2, _v2, _s2 in per[b_]):
+                    col.bad(R, fi, f"{fi.name}: `{a_}` and `{b_}` are stored together",
+                            f"`{unparse(s1.node)[:60]}` stores into `{a_}` on a path on which `{b_}` is not stored: values and row "
+                            f"indices of the inputs get out of step (an input without rows, or rows without an input)", node=s1.node)
         for g1, v1, s1 in per[names[0]]:
             for g2, v2, s2 in per[names[1]]:
                 if not consistent(g1, g2):
